@@ -689,7 +689,7 @@ func TestVerifBoundedOpsTraversal(t *testing.T) {
 									if revisit && !exact && knownClass["nodes-filter-revisit-budget"] {
 										if !ok {
 											xHits["nodes-filter-revisit-budget"]++
-											if len(xExamples["nodes-filter-revisit-budget"]) < 3 && len(g.edges) <= 2 {
+											if len(xExamples["nodes-filter-revisit-budget"]) < 3 && len(g.edges) <= 3 {
 												xExamples["nodes-filter-revisit-budget"] = append(xExamples["nodes-filter-revisit-budget"], msg)
 											}
 										}
